@@ -277,6 +277,10 @@ def r3(ctx):
         if st and rest:
             ok = all(any(g.dominates(s.id, r.id) for s in st) for r in rest)
             ctx.check(ok, R, f"{clsname}.shutdown:state-first", m, st[0].ast, "state = CLOSED before anything is awaited (late frames are ignored)", "awaits happen while the state machine is still live")
+        ci_, rest = steps["clear-initialised"], [n for n in g.nodes if n.awaits]
+        if ci_ and rest:
+            ok = all(any(g.dominates(s.id, r.id) for s in ci_) for r in rest)
+            ctx.check(ok, R, f"{clsname}.shutdown:initialised-cleared-first", m, ci_[0].ast, "`initialised` is withdrawn before anything is awaited: an init() issued while shutdown() is suspended waits for its own handshake instead of returning True for the model that is being torn down", "shutdown() suspends while the client still reports itself initialised")
 
 
 def r4(ctx):
